@@ -379,6 +379,34 @@ func ruleJSONStringify(c *Ctx, r *R) {
 // cycleTestDominates: a range loop over the stack field, whose body compares two *object values and panics with TypeError
 // on equality, has its header dominating the push.
 func cycleTestDominates(fn *ssa.Function, push *ssa.Store) bool {
+	// the library form: slices.Contains(<stack>, obj) on whose true side a TypeError is raised
+	for _, b := range fn.Blocks {
+		iff, ok := b.Instrs[len(b.Instrs)-1].(*ssa.If)
+		if !ok {
+			continue
+		}
+		call, ok := iff.Cond.(*ssa.Call)
+		if !ok || call.Call.StaticCallee() == nil || len(call.Call.Args) != 2 {
+			continue
+		}
+		lib := call.Call.StaticCallee()
+		if o := lib.Origin(); o != nil {
+			lib = o // the generic function an instantiation was made from
+		}
+		if lib.Pkg == nil || lib.Pkg.Pkg.Path() != "slices" || !strings.HasPrefix(lib.Name(), "Contains") {
+			continue
+		}
+		if a := loadAddr(call.Call.Args[0]); a != nil {
+			if _, f := fieldOfAddr(a); f == nil || f.Name() != "stack" {
+				continue
+			}
+		} else if fl, ok := call.Call.Args[0].(*ssa.Field); !ok || fl.X.Type().Underlying().(*types.Struct).Field(fl.Field).Name() != "stack" {
+			continue
+		}
+		if blockPanicsWith(b.Succs[0], "panicTypeError") && b.Dominates(push.Block()) {
+			return true
+		}
+	}
 	for _, b := range fn.Blocks {
 		iff, ok := b.Instrs[len(b.Instrs)-1].(*ssa.If)
 		if !ok {
@@ -489,22 +517,35 @@ func gapValueBounded(fn *ssa.Function, val ssa.Value, at ssa.Instruction, depth 
 			return false, "space count is not clamped to 0..10"
 		}
 	}
-	// the unsliced string: must be under len(value) <= 10
+	// the unsliced string: must be under len(value) <= 10 (in code units, or in bytes - a code unit takes at least one
+	// byte), written as `len > 10` on the other side or `len <= 10` on this one
 	for _, b := range fn.Blocks {
 		iff, ok := b.Instrs[len(b.Instrs)-1].(*ssa.If)
 		if !ok {
 			continue
 		}
 		bo, ok := iff.Cond.(*ssa.BinOp)
-		if !ok || bo.Op != token.GTR {
+		if !ok {
 			continue
 		}
-		if k, isC := constInt(bo.Y); !isC || k != 10 {
+		k, isC := constInt(bo.Y)
+		if !isC {
+			continue
+		}
+		side := -1 // successor on which len <= 10 holds
+		switch {
+		case bo.Op == token.GTR && k == 10, bo.Op == token.GEQ && k == 11:
+			side = 1
+		case bo.Op == token.LEQ && k <= 10, bo.Op == token.LSS && k <= 11:
+			side = 0
+		}
+		if side < 0 {
 			continue
 		}
 		if call, ok := bo.X.(*ssa.Call); ok {
 			if bi, ok := call.Call.Value.(*ssa.Builtin); ok && bi.Name() == "len" && derivesFromString(call.Call.Args[0], val, 0) {
-				if b.Succs[1].Dominates(at.Block()) || b.Succs[1] == at.Block() {
+				succ := b.Succs[side]
+				if len(succ.Preds) == 1 && (succ.Dominates(at.Block()) || succ == at.Block()) {
 					return true, "whole string, stored only when len <= 10"
 				}
 			}
